@@ -211,7 +211,9 @@ func (m *Manager) AddBinding(mac net.HardwareAddr, ipv4 net.IP) error {
 	if ipv4 != nil {
 		ip4 := ipv4.To4()
 		if ip4 != nil {
-			binding.IPv4Addr = binary.BigEndian.Uint32(ip4)
+			// The kernel program compares this field with ip->saddr, i.e. the
+			// address bytes in network order as they sit in memory.
+			binding.IPv4Addr = binary.NativeEndian.Uint32(ip4)
 			binding.IPv4Valid = 1
 		}
 	}
@@ -318,9 +320,11 @@ func (m *Manager) AddAllowedRange(network *net.IPNet) error {
 		IP        uint32
 	}
 
+	// LPM trie data is matched byte by byte from the first (most significant)
+	// address byte, and the program looks up ip->saddr as it sits in memory.
 	key := lpmKey{
 		Prefixlen: uint32(ones),
-		IP:        binary.BigEndian.Uint32(ip4),
+		IP:        binary.NativeEndian.Uint32(ip4),
 	}
 
 	var value uint8 = 1
